@@ -131,9 +131,21 @@ def operands(args):
         items = args[0].val
     else:
         items = args
-    if any(a.kind == "op" for a in items):
-        return None
-    return [a.bytes() for a in items]
+    out = []
+    for a in items:
+        if a.kind == "op":
+            # the number opcodes stand for their number; any other opcode is not an operand
+            if a.val == 0:
+                out.append(b"")
+            elif 0x51 <= a.val <= 0x60:
+                out.append(bytes([a.val - 0x50]))
+            elif a.val == 0x4f:
+                out.append(b"\x81")
+            else:
+                return None
+        else:
+            out.append(a.bytes())
+    return out
 
 
 def le256(b):
@@ -204,9 +216,9 @@ def oracle(name, args):
         if v.kind != "str":
             return "REJECT"
         p = O.b58check_decode(v.val.strip(" \t\n\v\f\r"))
-        if p is None or len(p) != 21 or p[0] not in (0, 5):
+        if p is None or len(p) != 21 or p[0] != 0:
             return "REJECT"
-        return render("bytes", b"\x76\xa9\x14" + p[1:] + b"\x88\xac" if p[0] == 0 else b"\xa9\x14" + p[1:] + b"\x87")
+        return render("bytes", b"\x76\xa9\x14" + p[1:] + b"\x88\xac")
     if name == "scriptpubkey-to-addr":
         if v.kind == "str":
             return "REJECT"
@@ -275,7 +287,7 @@ def oracle(name, args):
             return "REJECT"
         h, pk, sig = ops
         if len(pk) == 32:
-            if O.lift_x(int.from_bytes(pk, "big")) is None:
+            if len(sig) != 64 or O.lift_x(int.from_bytes(pk, "big")) is None:
                 return "REJECT"
             return render("int", 1 if O.schnorr_verify(pk, h, sig) else 0)
         if name == "verify-sig":
@@ -338,67 +350,12 @@ def words_of(case):
     return [bytes.fromhex(w).decode("latin1") if w != "-" else "" for w in case.split(" ")[1:]]
 
 
-SMALL = re.compile(r"^(-?\d+|0x|0x(0[1-9a-f]|10|81)|\[.*\])$")
-SMALL_IN_SCRIPT = re.compile(r"(^\[|\s)(-?\d+|0x|0x(0[1-9a-f]|10|81))(\s|\]$)")
-BLANKS = " \t\n\v\f\r"
-
-
-def hex_operands(args):
-    """operands written as 0x.. literals (possibly inside one bracket); None if anything else occurs"""
-    ws = args[0][1:-1].split() if len(args) == 1 and args[0].startswith("[") and args[0].endswith("]") else args
-    out = []
-    for w in ws:
-        if not re.fullmatch(r"0x([0-9a-fA-F]{2})*", w):
-            return None
-        out.append(bytes.fromhex(w[2:]))
-    return out
-
-
 def region(case, im, mo, sp):
-    """which recorded defect (if any) a disagreement with the specification belongs to; each predicate describes the
-    input region of one defect (the implementation must still agree with the model for the finding to be accepted)"""
-    w = words_of(case)
+    """which recorded finding (if any) a disagreement belongs to.  The only region left: rows of the tf table that have no
+    (or a differently named) inline form — every other defect found by this check has been repaired in the tree, and its
+    reproducers stay in the streams as regression cases."""
     if case.startswith("INLINE"):
         return "F-C14-inline-missing"
-    name, args = w[0], w[1:]
-    cim = canon(im)
-    if name in OPERAND_TF and name != "jacobi-symbol":
-        if any(SMALL.match(a) and not a.startswith("[") for a in args) or (len(args) == 1 and args[0].startswith("[") and SMALL_IN_SCRIPT.search(args[0])):
-            return "F-C14-small-operand"
-    if name in ("add", "sub"):
-        ops = hex_operands(args)
-        if ops is not None and len(ops) == 3 and le256(ops[2]) != 0:
-            a, b, g = le256(ops[0]), le256(ops[1]), le256(ops[2])
-            if name == "sub" and b != 0:
-                return "F-C14-sub-modulus"
-            if a + b >= 2 * g:
-                return "F-C14-add-unreduced"
-        return None
-    if name == "prefix-compact-size" and len(args) == 1 and not re.fullmatch(r"-?\d+|(0x)?([0-9a-fA-F]{2})*|\[.*\]", args[0]):
-        return "F-C14-pcs-nondata"
-    if name == "addr-to-scriptpubkey" and len(args) == 1:
-        p = O.b58check_decode(args[0].strip(BLANKS))
-        if cim == "CRASH":
-            return "F-C14-addr-crash"
-        if p is not None and (len(p) != 21 or p[0] != 0):
-            return "F-C14-addr-version"
-        return None
-    if name == "base58chk-decode" and len(args) == 1:
-        p = O.b58check_decode(args[0].strip(BLANKS))
-        if p is not None and len(p) > 200:
-            return "F-C14-base58-maxlen"
-        return None
-    if name == "bech32-decode" and len(args) == 1:
-        r = O.bech32_decode(args[0])
-        if r is not None and not r[2]:
-            return "F-C14-bech32-empty" if cim == "CRASH" else None
-        if r is not None and O.convertbits(r[2][1:], 5, 8, False) is None:
-            return "F-C14-bech32-padding"
-        return None
-    if name in ("verify-sig", "verify-sig-compact") and cim == "CRASH":
-        ops = hex_operands(args)
-        if ops is not None and len(ops) == 3 and (len(ops[0]) == 64 or (len(ops[1]) == 32 and len(ops[2]) != 64)):
-            return "F-C14-verifysig-assert"
     return None
 
 
@@ -574,8 +531,6 @@ def gen_arith(rnd, quick):
             args = [le(a, rnd.choice((None, 32, 33, 40))), le(b, rnd.choice((None, 32)))]
             if rnd.random() < 0.75:
                 args.append(le(g))
-            if any(SMALL.match(x.text) for x in args) and rnd.random() < 0.8:
-                continue
             cases.append((name, args if rnd.random() < 0.8 else [script(args)]))
         # the boundaries of the reduction: a + b = g - 1, g, g + 1, 2g - 1, 2g and a + b = 2^256 - 1, 2^256, 2^256 + 1
         for g in (0x31, 0x7f, 0x101, 0xffff, O.P, O.N, M - 1, (1 << 255) + 1, rnd.randrange(1 << 100, 1 << 200)):
@@ -707,13 +662,30 @@ def gen_hashes_keys(rnd, quick):
         cases.append(("verify-sig", [hx(msg), hx(xo), hx(sig[:63] + bytes([sig[63] ^ 1]))]))
         cases.append(("verify-sig", [hx(msg), hx(xo), hx(sig[:32] + O.N.to_bytes(32, "big"))]))
         cases.append(("verify-sig", [hx(msg), hx((5).to_bytes(32, "big")), hx(sig)]))
-        cases.append(("verify-sig", [hx(msg), hx(xo), hx(sig[:63])]))                 # asserts in the C++
-        cases.append(("verify-sig", [hx(msg + msg), hx(comp(pt)), hx(O.der_sig(r, s))]))   # 64-byte sighash: asserts in the C++
+        cases.append(("verify-sig", [hx(msg), hx(xo), hx(sig[:63])]))                 # refused (used to assert)
+        cases.append(("verify-sig", [hx(msg + msg), hx(comp(pt)), hx(O.der_sig(r, s))]))   # 64-byte sighash: refused (used to assert)
         cases.append(("verify-sig", [hx(msg[:31]), hx(comp(pt)), hx(O.der_sig(r, s))]))
     for args in ([hx(rand_bytes(rnd, 32)), hx(rand_bytes(rnd, 33))], [st("zebra")], [num(3)], [hx(rand_bytes(rnd, 32)), hx(b"\x02" + rand_bytes(rnd, 32)), hx(b"")]):
         cases.append(("verify-sig", args))
         cases.append(("verify-sig-compact", args))
     return cases
+
+
+def gen_regressions():
+    """the reproducers of the defects this check found in earlier rounds (all repaired in the tree since)"""
+    P2SH = O.b58check_encode(b"\x05" + bytes(range(20)))
+    return [
+        ("sub", [hx(b"\x20"), hx(b"\x11"), hx(b"\x30")]), ("sub", [hx(b"\x11"), hx(b"\x11"), hx(b"\x30")]), ("sub", [hx(b"\x11"), hx(b"\x20"), hx(b"\x30")]),
+        ("sub", [script([hx(b"\x20"), hx(b"\x11"), hx(b"\x30")])]), ("sub", [hx(b"\x20"), hx(b"\x60"), hx(b"\x30")]),
+        ("add", [hx(b"\x64"), hx(b"\x11"), hx(b"\x17")]), ("add", [hx(b"\x11"), hx(b"\x20"), hx(b"\x17")]), ("add", [hx(b"\xff" * 32), hx(b"\xff" * 32), hx(b"\x17")]),
+        ("add", [num(1), num(2)]), ("add", [hx(b"\x01"), hx(b"\x02")]), ("add", [num(-1), num(16)]), ("add", [hx(b""), num(0)]), ("sub", [num(16), num(1), num(7)]),
+        ("add", [op("OP_1"), op("OP_16")]), ("add", [op("OP_1NEGATE"), op("OP_0")]), ("add", [op("OP_DUP"), num(1)]), ("tagged-hash", [st("TapLeaf"), num(5)]),
+        ("tagged-hash", [st("TapLeaf"), hx(b"")]), ("prefix-compact-size", [st("hello")]), ("prefix-compact-size", [op("OP_DUP")]), ("prefix-compact-size", [st("z")]),
+        ("addr-to-scriptpubkey", [st("abc")]), ("addr-to-scriptpubkey", [st("3QJmnh")]), ("addr-to-scriptpubkey", [st(P2SH)]), ("addr-to-scriptpubkey", [st("1Wh4bh")]),
+        ("addr-to-scriptpubkey", [hx(b"\x00" + bytes(range(20)))]), ("addr-to-scriptpubkey", [num(5)]),
+        ("bech32-decode", [st("a12uel5l")]), ("bech32-decode", [st("a1lqfn3a")]), ("bech32-decode", [st("a1pq0sgynx")]),
+        ("base58chk-decode", [st(O.b58check_encode(bytes(range(256)) * 2))]), ("base58chk-decode", [st(O.b58check_encode(b"\x00" * 300))]),
+    ]
 
 
 def gen_meta():
@@ -801,7 +773,7 @@ def spec_lines(lines, model, spec):
 def run(ctx):
     rnd = random.Random(ctx.seed * 1009 + 14)
     quick = ctx.tier == "quick"
-    structured = gen_unary(rnd, quick) + gen_base58(rnd, quick) + gen_bech32(rnd, quick) + gen_arith(rnd, quick) + gen_hashes_keys(rnd, quick)
+    structured = gen_regressions() + gen_unary(rnd, quick) + gen_base58(rnd, quick) + gen_bech32(rnd, quick) + gen_arith(rnd, quick) + gen_hashes_keys(rnd, quick)
     lines = [tf_line(n, a) for n, a in structured]
     seen = set()
     uniq = []
@@ -900,6 +872,25 @@ def run(ctx):
 
     # 6. the real programs
     real_binaries(ctx, rnd, lines, impl, il + nl, i_impl)
+
+    # 7. string arguments that begin with hex digits: `TryHex` leaves the bytes it read in `data` of the (string) value, and
+    #    scriptpubkey-to-addr / pubkey-to-xpubkey read `data` whatever the type is, while `name(arg)` assigns only the active
+    #    field.  The model mirrors both forms (correspondence is checked here on every run); that the two forms differ is
+    #    reported as finding F-C14-stale-hex-data once that id is recorded in KNOWN_FINDINGS.txt, and noted otherwise.
+    stale = [("scriptpubkey-to-addr", "spk_to_addr", "76a914" + "5a" * 20 + "88aczz"),
+             ("scriptpubkey-to-addr", "spk_to_addr", "00" * 25 + "zz"),
+             ("pubkey-to-xpubkey", "pubkey_to_xpubkey", O.ser_compressed(O.G).hex() + "zz")]
+    sl = []
+    for name, ex, text in stale:
+        sl.append(tf_line(name, [st(text)]))
+        sl.append("INLINE " + (ex + "(" + text + ")").encode("latin1").hex())
+    s_impl = ctx.harness(sl)
+    s_model = ctx.driver(sl, "model")
+    ctx.compare("stale-hex-data-model", sl, [canon(x) for x in s_impl], [canon(x) for x in s_model], nontrivial=reached)
+    differ = [sl[k] for k in range(0, len(sl), 2) if obs(s_impl[k]) != obs(s_impl[k + 1])]
+    if differ and "F-C14-stale-hex-data" in ctx.findings:
+        ctx.known("F-C14-stale-hex-data", ctx.findings["F-C14-stale-hex-data"])
+    ctx.notes.append({"stale_hex_data_forms_differ": len(differ), "of": len(stale)})
 
 
 def real_binaries(ctx, rnd, lines, impl, inline_lines, inline_impl):
